@@ -438,6 +438,24 @@ def sort_closure_spec(s, rewrites=None):
         pos = m.start() + len(new)
 
 
+def format_to_env(s, rewrites=None):
+    """D26: `format!(..)` with pure arguments becomes `format_text()`, an environment function returning an unspecified String: the
+    text format! produces is not modelled (sound as long as the text only flows into functions whose results are themselves
+    unspecified; anything proved holds for every text)."""
+    rx = re.compile(r'\bformat!\(')
+    while True:
+        m = rx.search(s)
+        if not m:
+            return s
+        op = m.end() - 1
+        cp = _match(s, op, '(', ')')
+        if not _args_pure(s[op + 1:cp]):
+            raise Undecided('unsupported construct: format! with an argument that is not a pure accessor (D26 not applicable)')
+        if rewrites is not None:
+            rewrites.append('D26 format! text not modelled')
+        s = s[:m.start()] + 'format_text()' + s[cp + 1:]
+
+
 def position_to_loop(s, rewrites=None):
     """D17: the expression `E.iter().position(|x| PRED)` over a Vec/VecDeque place E (PRED an expression) becomes the search
     loop it stands for, as a block expression:
